@@ -143,7 +143,8 @@ NonCtor(a) == {s \in 1..NS(a) : ~Doc[a].s[s].ctor}
 
 -----------------------------------------------------------------------------
 (* the design model: build, then check by reference, use, check by value *)
-Forms == {"fit", "fit_with", "transform", "transform_ds", "fit_vocabulary"}   \* calling forms (array / dataset variants)
+Forms == {"fit", "fit_with", "transform", "transform_ds", "fit_vocabulary", "fit_files", "fit_files_missing",
+          "fit_empty", "fit_with_empty", "transform_empty", "transform_ds_empty"}   \* calling forms (array / dataset variants)
 
 Init ==
   /\ alg \in AlgSet
